@@ -160,6 +160,17 @@ CHECKS = {
         "DESIGN.md 6 C17",
         TRUST,
     ),
+    "C01": (
+        "TLA+ step machine FlowStep.tla (one action per kernel call, arbitrary scratch contents) checked by TLC against RefStep "
+        "(the documented operator sequence) on simulated behaviours for every simulator configuration + the emitted states "
+        "replayed through the real simulators' public time_step with all scratch/solver buffers poisoned; vorticity compared with "
+        "the exact pipeline (damping from the symbolic model), velocity with an independent closed-form reference "
+        "(Green's function summation / Neumann pseudo-inverse + central differences), time and forcing checked exactly",
+        "Model-based conformance of whole steps: the specification fixes the discretisation independently of the kernels; "
+        "sampled (simulation-mode) rather than exhaustive states, full factorial of configurations in the thorough tier.",
+        "DESIGN.md 6 C01",
+        TRUST,
+    ),
 }
 
 NOT_YET = "check not built yet in this round (see DESIGN.md 11 for the build order)"
